@@ -1,9 +1,30 @@
 import CedarVerif.Lemmas.TpeViews
 import CedarVerif.Lemmas.TpeQuery
 import CedarVerif.Lemmas.TpeSound4
+import CedarVerif.Lemmas.TpeDecision
+import CedarVerif.Lemmas.TpeQuerySound
 /-
 C14 — type-aware partial evaluation and permission queries are sound.  Property theorems only
 (helpers: Lemmas/Tpe*.lean).  Model: Cedar/Tpe.lean (`Residual`, `interpret`, `Tpe.Response`, views, `reauthorize`, queries).
+
+`interpret` soundness, status:
+  * `interpret_sound` (= `InterpretSoundFull`, PROVED): for EVERY residual — all arms of `interpret`: variables, `&&` `||`
+    with the `<error-free> && false` rule, `if`, unary and all twelve binary operators incl. `in` (entity / entity set, known
+    or unknown ancestors) and `getTag` / `hasTag` (tags `None` ≠ empty), `.` / `has`, `like`, `is`, extension calls, set and
+    record constructors — on every completion, given only `TypeSafe req es r`: no node of the INPUT residual raises a type
+    error on the completion (semantic consequence of validation; guarded by short-circuiting like the typechecker's
+    capabilities).  No hypothesis mentions `interpret`, `canError` or the residuals produced.
+  * `can_error_analysis_sound` (PROVED): the mirrored `can_error_assuming_well_formed` is sound on type-safe residuals —
+    the former hypothesis `ErrFreeSound` is discharged; `interpret_keeps_typeSafe`: the output is type-safe again, which
+    is what makes re-interpretation (C15) compositional.
+  * `interpret_sound_partial` (kept): the older formulation over `Frag`, now with every constructor, carrying `OpBool` /
+    `ErrFreeSound` on the `&&` / `||` nodes.
+  * `tpe_decision_sound`: `interpret_sound` + `tpe_table_sound`: a definite TPE decision is the concrete decision on every
+    completion (this is the `hsound` of `query_exact` / `query_action_sound`).
+  * NOT proved: `TypeSafe` of the typed expression from C03's typechecker soundness (the TPE model takes the typed
+    expression as an input; C03's `typeOf_sound_strict` is a statement about the top-level result of `typeOf`, the per-node
+    version needs its induction re-run with the stronger invariant); the passage `Residual → Expr` of the real
+    `reauthorize` (a `Concrete` residual is re-parsed as `Value → Expr`); differential runs cover both.
 -/
 namespace Cedar.C14
 open Cedar Cedar.Tpe
@@ -201,26 +222,119 @@ theorem query_action_sound (acts : List (EntityUID × List TPolicy)) (p r : PUid
         simp only [Option.some.injEq] at hf; subst hf
         exact ⟨tps, resp, hm, hr, rfl, by simpa using hne⟩
 
-/-- **Full statement of `interpret` soundness** (DESIGN.md §6 C14), kept visible; NOT proved in full.  For every
-completion consistent with the partial inputs, every residual evaluates like its interpretation (equal values, or both
-errors) — hence a residual policy is satisfied / unsatisfied / erroring exactly when its original is — for ALL arms,
-given only that the can-error analysis is sound for the residuals `interpret` produces and that `&&`/`||` operands are
-booleans (both consequences of validation). -/
-def InterpretSoundFull : Prop :=
+/-- the FIRST formulation of the full statement (kept for the record).  Its premise `∀ r, OpBool … r` quantifies over
+ALL residuals and is unsatisfiable (`opBool_all_unsatisfiable`: a `Concrete` long is not a boolean), so this Prop is
+vacuously true; it is superseded by `InterpretSoundFull` below. -/
+def InterpretSoundFull_v1 : Prop :=
   ∀ (preq : Tpe.PRequest) (pes : Tpe.PEntities) (req : Request) (es : Entities), Completes preq pes req es →
     (∀ r, ErrFreeSound preq pes req es r) → (∀ r, OpBool preq pes req es r) →
     ∀ r : Residual, Agree ((interpret preq pes r).eval req es) (r.eval req es)
 
-/-- **interpret_sound_partial**: `InterpretSoundFull` on the fragment `Frag` of `interpret`: concrete and error
-residuals, the four variables (unknown principal / resource id, unknown context), `&&` and `||` with all their
-simplifications incl. `<error-free> && false → false` and `<error-free> || true → true`, `if`, every unary operator,
-the nine store-free binary operators, `.` and `has` on records and on entities with known or unknown attributes,
-`like`, `is` incl. its short circuit on an unknown principal / resource.  The hypotheses about validation are
-attached to the `&&`/`||` nodes of the fragment: `OpBool` (the operands are booleans when they evaluate) and the
-explicit `ErrFreeSound` ("`¬canError r` ⇒ `r` does not error on the completion") for the left operand.
-`Agree` = equal values, or both errors (classes not compared).
-Missing w.r.t. the full statement: `in`, `getTag`, `hasTag` (unknown ancestors / tags), extension calls, set and record
-constructors; and the passage `Residual → Expr` (`Residual.eval` evaluates a `Concrete` residual to its value). -/
+theorem opBool_all_unsatisfiable (preq : Tpe.PRequest) (pes : Tpe.PEntities) (req : Request) (es : Entities) :
+    ¬ ∀ r, OpBool preq pes req es r := by
+  intro h
+  obtain ⟨b, hb⟩ := h (.concrete (.prim (.int 0)) "") (.prim (.int 0)) (by simp [interpret, Residual.eval])
+  cases hb
+
+/-- **Full statement of `interpret` soundness** (DESIGN.md §6 C14).  For every completion consistent with the partial
+inputs, EVERY residual evaluates like its interpretation (equal values, or both errors) — hence a residual policy is
+satisfied / unsatisfied / erroring exactly when its original is — for all arms, given that the residual is type-safe on
+the completion (`TypeSafe`: no node raises a type error; consequence of validation). -/
+def InterpretSoundFull : Prop :=
+  ∀ (preq : Tpe.PRequest) (pes : Tpe.PEntities) (req : Request) (es : Entities), Completes preq pes req es →
+    ∀ r : Residual, TypeSafe req es r → Agree ((interpret preq pes r).eval req es) (r.eval req es)
+
+/-- **interpret_sound**: the full statement, proved (Lemmas/TpeTypeSafe2.lean, by induction on the type-safety derivation,
+simultaneously with `interpret_keeps_typeSafe`). -/
+theorem interpret_sound : InterpretSoundFull :=
+  fun _ _ _ _ hC _ hts => (interpret_typeSafe hC hts).1
+
+/-- `interpret_sound` in the three forms the property uses: equal results; same boolean; erroring together -/
+theorem interpret_sound_outcomes (preq : Tpe.PRequest) (pes : Tpe.PEntities) (req : Request) (es : Entities)
+    (hC : Completes preq pes req es) {r : Residual} (hts : TypeSafe req es r) :
+    Agree ((interpret preq pes r).eval req es) (r.eval req es) ∧
+    (∀ b, (interpret preq pes r).eval req es = .ok (.prim (.bool b)) ↔ r.eval req es = .ok (.prim (.bool b))) ∧
+    ((∃ e, (interpret preq pes r).eval req es = .error e) ↔ ∃ e, r.eval req es = .error e) := by
+  have h := interpret_sound preq pes req es hC r hts
+  refine ⟨h, ?_, ?_⟩
+  · intro b
+    rcases agree_cases h with ⟨v, h1, h2⟩ | ⟨e, e', h1, h2⟩ <;> simp [h1, h2]
+  · rcases agree_cases h with ⟨v, h1, h2⟩ | ⟨e, e', h1, h2⟩ <;> simp [h1, h2]
+
+/-- **interpret_keeps_typeSafe**: the residual `interpret` returns is type-safe on the completion again -/
+theorem interpret_keeps_typeSafe (preq : Tpe.PRequest) (pes : Tpe.PEntities) (req : Request) (es : Entities)
+    (hC : Completes preq pes req es) {r : Residual} (hts : TypeSafe req es r) : TypeSafe req es (interpret preq pes r) :=
+  (interpret_typeSafe hC hts).2
+
+/-- **can_error_analysis_sound** (discharges `ErrFreeSound`): a residual that `can_error_assuming_well_formed` declares
+error-free evaluates without error on every request / store on which it is type-safe; in particular this holds for the
+residuals `interpret` produces from type-safe inputs, which is `ErrFreeSound`. -/
+theorem can_error_analysis_sound (req : Request) (es : Entities) :
+    (∀ r : Residual, TypeSafe req es r → r.canError = false → ∃ v, r.eval req es = .ok v) ∧
+    (∀ (preq : Tpe.PRequest) (pes : Tpe.PEntities), Completes preq pes req es → ∀ r, TypeSafe req es r →
+      ErrFreeSound preq pes req es r ∧ (IsBoolR req es r → OpBool preq pes req es r)) := by
+  refine ⟨fun r hts => typeSafe_errFree hts, ?_⟩
+  intro preq pes hC r hts
+  obtain ⟨hag, hts'⟩ := interpret_typeSafe hC hts
+  exact ⟨typeSafe_errFree hts', fun hb => isBoolR_of_agree hag hb⟩
+
+/-- non-vacuity of `interpret_sound` on the arms the fragment did not cover: principal id unknown,
+`User::"a" in Group::"g"` with UNKNOWN ancestors stays a residual, `principal.hasTag("t")`-style lookup on known tags
+evaluates, a record constructor over a residual stays a residual; the input is type-safe on the completion. -/
+example :
+    let preq : Tpe.PRequest := ⟨⟨"User", none⟩, ⟨"Action", "view"⟩, ⟨"Doc", some "d"⟩, some []⟩
+    let pes : Tpe.PEntities := [(⟨"User", "a"⟩, ⟨some [], none, some [("t", .prim (.bool true))]⟩)]
+    let req : Request := ⟨⟨"User", "a"⟩, ⟨"Action", "view"⟩, ⟨"Doc", "d"⟩, []⟩
+    let es : Entities := [(⟨"User", "a"⟩, ⟨[], [⟨"Group", "g"⟩], [("t", .prim (.bool true))]⟩)]
+    let ua : Residual := .concrete (.prim (.entityUID ⟨"User", "a"⟩)) ""
+    let mem : Residual := .part (.binaryApp .mem ua (.concrete (.prim (.entityUID ⟨"Group", "g"⟩)) "")) ""
+    let tag : Residual := .part (.binaryApp .hasTag ua (.concrete (.prim (.string "t")) "")) ""
+    let st : Residual := .part (.is (.part (.getAttr (.part (.record [("k", .part (.var .principal) "")]) "") "k") "") "User") ""
+    let r : Residual := .part (.and mem (.part (.and tag st) "")) ""
+    TypeSafe req es r ∧ (interpret preq pes r).isPartial = true ∧ r.eval req es = .ok (.prim (.bool true)) := by
+  intro preq pes req es ua mem tag st r
+  have hm : mem.eval req es = .ok (.prim (.bool true)) := by rfl
+  have ht : tag.eval req es = .ok (.prim (.bool true)) := by rfl
+  have hs : st.eval req es = .ok (.prim (.bool true)) := by rfl
+  have hts : (Residual.part (.and tag st) "").eval req es = .ok (.prim (.bool true)) := by rfl
+  refine ⟨?_, by decide, by rfl⟩
+  refine .and (.binary (.concrete _ _) (.concrete _ _) ?_) ?_ (fun _ => .and (.binary (.concrete _ _) (.concrete _ _) ?_) ?_
+    (fun _ => .is (.getAttr (.record ?_)) ?_) ?_) ?_
+  · intro v1 v2 h1 h2; cases h1; cases h2; simp [applyBinary, Value.asEntity, bind, Except.bind]
+  · intro v hv; rw [hm] at hv; cases hv; exact ⟨true, rfl⟩
+  · intro v1 v2 h1 h2; cases h1; cases h2; simp [applyBinary, Value.asEntity, Value.asString, bind, Except.bind, Entities.find?]
+  · intro v hv; rw [ht] at hv; cases hv; exact ⟨true, rfl⟩
+  · intro x hx; simp only [List.mem_singleton] at hx; subst hx; exact .var _ _
+  · intro v hv
+    have : (Residual.part (.getAttr (.part (.record [("k", .part (.var .principal) "")]) "") "k") "").eval req es =
+        .ok (.prim (.entityUID ⟨"User", "a"⟩)) := by rfl
+    rw [this] at hv; cases hv; simp [isV, Value.asEntity]
+  · intro _ v hv; rw [hs] at hv; cases hv; exact ⟨true, rfl⟩
+  · intro _ v hv; rw [hts] at hv; cases hv; exact ⟨true, rfl⟩
+
+/-- **tpe_decision_sound**: `interpret_sound` + `tpe_table_sound`.  For the response `tpe::is_authorized` builds on partial
+inputs, and every completion on which the typed conditions are type-safe (`TypedSafe`) and evaluate like the policy
+conditions (`TypedAgrees`): every residual policy sits in a bucket consistent with the outcome of its original, and a
+definite TPE decision is the decision of the concrete authorizer over the input policies. -/
+theorem tpe_decision_sound (preq : Tpe.PRequest) (pes : Tpe.PEntities) (tps : List TPolicy) (resp : Tpe.Response)
+    (h : Tpe.isAuthorized preq pes tps = some resp) (req : Request) (es : Entities) (hC : Completes preq pes req es)
+    (hT : TypedSafe req es tps) (hE : TypedAgrees req es tps) :
+    (∀ rp, rp ∈ resp.residuals → rp.residual.cls.Consistent (rp.original.outcome req es)) ∧
+    (∀ d, resp.decision = some d → (Cedar.isAuthorized req es (tps.map (·.policy))).decision = d) := by
+  have hc := isAuthorized_consistent hC hT hE h
+  refine ⟨hc, ?_⟩
+  intro d hd
+  have := (tpe_table_sound resp).2 (isAuthorized_wf h) req es hc d hd
+  have hp := isAuthorized_policySet h
+  unfold Tpe.Response.policySet at hp
+  rw [hp] at this; exact this
+
+/-- **interpret_sound_partial** (the older formulation, kept): soundness of `interpret` on `Frag` — now EVERY constructor
+of `Residual` / `ResidualKind` (added: `in`, `getTag`, `hasTag`, extension calls, set and record constructors) — where the
+facts about validation are attached to the `&&`/`||` nodes as hypotheses about the residuals `interpret` PRODUCES: `OpBool`
+(the interpreted operands are booleans when they evaluate) and `ErrFreeSound` (the can-error analysis is right about the
+interpreted left operand).  `interpret_sound` replaces both by `TypeSafe` of the input (and proves them:
+`can_error_analysis_sound`).  `Agree` = equal values, or both errors (classes not compared). -/
 theorem interpret_sound_partial (preq : Tpe.PRequest) (pes : Tpe.PEntities) (req : Request) (es : Entities)
     (hC : Completes preq pes req es) {r : Residual} (hf : Frag preq pes req es r) :
     Agree ((interpret preq pes r).eval req es) (r.eval req es) ∧
@@ -255,5 +369,37 @@ example :
     rw [this] at hv; cases hv; exact ⟨true, rfl⟩
   · intro _
     exact ⟨.prim (.bool true), by rfl⟩
+
+/-- **query_resource_exact / query_principal_exact**: `query_exact` with its soundness premise DISCHARGED by
+`tpe_decision_sound`: every candidate request completes the partial inputs of the query (`completes_ofConcrete`), so the
+queries return exactly the candidates the concrete authorizer allows — given, for each candidate request, type safety of
+the typed conditions and their agreement with the policy conditions. -/
+theorem query_resource_exact (tps : List TPolicy) (ctx : List (String × Value)) (es : Entities)
+    (principal action : EntityUID) (rty : EntityType) (us : List EntityUID)
+    (h : queryResource tps principal action rty ctx es = some us)
+    (hT : ∀ u, u ∈ candidates es rty → TypedSafe ⟨principal, action, u, ctx⟩ es tps)
+    (hE : ∀ u, u ∈ candidates es rty → TypedAgrees ⟨principal, action, u, ctx⟩ es tps) :
+    ∀ u, u ∈ us ↔ u ∈ candidates es rty ∧
+      (Cedar.isAuthorized ⟨principal, action, u, ctx⟩ es (tps.map (·.policy))).decision = .allow :=
+  (query_exact tps ctx es).1 principal action rty us h (fun resp hr d hd u hu =>
+    (tpe_decision_sound _ _ tps resp hr ⟨principal, action, u, ctx⟩ es
+      (completes_ofConcrete _ _ es (by intro x hx; simp only [PUid.uid?, Option.map_some, Option.some.injEq] at hx; rw [← hx])
+        (by intro x hx; simp [PUid.uid?] at hx) rfl (candidates_ty hu) rfl
+        (by intro c hc; simp only [Option.some.injEq] at hc; exact hc))
+      (hT u hu) (hE u hu)).2 d hd)
+
+theorem query_principal_exact (tps : List TPolicy) (ctx : List (String × Value)) (es : Entities)
+    (pty : EntityType) (action resource : EntityUID) (us : List EntityUID)
+    (h : queryPrincipal tps pty action resource ctx es = some us)
+    (hT : ∀ u, u ∈ candidates es pty → TypedSafe ⟨u, action, resource, ctx⟩ es tps)
+    (hE : ∀ u, u ∈ candidates es pty → TypedAgrees ⟨u, action, resource, ctx⟩ es tps) :
+    ∀ u, u ∈ us ↔ u ∈ candidates es pty ∧
+      (Cedar.isAuthorized ⟨u, action, resource, ctx⟩ es (tps.map (·.policy))).decision = .allow :=
+  (query_exact tps ctx es).2 pty action resource us h (fun resp hr d hd u hu =>
+    (tpe_decision_sound _ _ tps resp hr ⟨u, action, resource, ctx⟩ es
+      (completes_ofConcrete _ _ es (by intro x hx; simp [PUid.uid?] at hx)
+        (by intro x hx; simp only [PUid.uid?, Option.map_some, Option.some.injEq] at hx; rw [← hx])
+        (candidates_ty hu) rfl rfl (by intro c hc; simp only [Option.some.injEq] at hc; exact hc))
+      (hT u hu) (hE u hu)).2 d hd)
 
 end Cedar.C14
